@@ -165,6 +165,8 @@ def check_property(prop, tier, seed, replay=None):
     results = run_tasks(modname, tier)
     task_objs = {t.name: t for t in mod.tasks(tier)}
     n_obl = n_dis = 0
+    s_obl = s_dis = 0
+    s_tasks = []
     samples = []
     funcs = {}
     backends = {}
@@ -202,9 +204,15 @@ def check_property(prop, tier, seed, replay=None):
                 continue
             if r.get("reach", "U") == "U":
                 n_obl += 1
+            else:
+                s_obl += 1
+                if r["task"] not in s_tasks:
+                    s_tasks.append(r["task"])
             if o["status"] == "proved":
                 if r.get("reach", "U") == "U" and not r.get("unsupported"):
                     n_dis += 1
+                elif r.get("reach", "U") != "U" and not r.get("unsupported"):
+                    s_dis += 1
                 b = backends.setdefault(o["solvers"][-1] if o["solvers"] else "trivial",
                                         {"discharged": 0, "solver_s": 0.0})
                 b["discharged"] += 1
@@ -342,12 +350,16 @@ def check_property(prop, tier, seed, replay=None):
         "trusted_base": sorted(trusted),
         "functions_under_contract": sorted(funcs.values(), key=lambda x: x["qualname"]),
         "backends": backends, "solver_s": round(solver_s, 3),
-        "bounded": [{"layer": "R (run-time contract on generated inputs; bounded, not counted as proof)",
+        "bounded": ([{"layer": "S (real code executed symbolically on bounded skeletons: structure concrete, every number and name "
+                               "symbolic; labelled bounded, not counted under obligations/discharged)",
+                      "obligations": s_obl, "discharged": s_dis, "skeletons": s_tasks[:40]}] if s_obl else []) + [
+                    {"layer": "R (run-time contract on generated inputs; bounded, not counted as proof)",
                      "scenarios": len(rt), "distinct": rt_distinct,
                      "checks": sum(r.get("stats", {}).get("checks", 0) if isinstance(r.get("stats"), dict) else 0
                                    for r in rt) + sum(len(r["fails"]) for r in rt),
                      "failed": len(rt_fail), "seed": seed,
                      "samples": [r["params"] for r in rt[:3]]}],
+        "bounded_skeleton_obligations": s_obl, "bounded_skeleton_discharged": s_dis,
         "canaries": canary_report,
         "known_findings": [{"id": k["id"], "status": k["status"],
                             "reproduced": bool(known_hit.get(k["id"], {}).get("refuted") or k["id"] in reproduced)}
@@ -366,7 +378,7 @@ def check_property(prop, tier, seed, replay=None):
     json.dump(ev, open(os.path.join(ROOT, "evidence", f"{prop}.json"), "w"), indent=1, default=str)
     for ln in lines:
         print(ln)
-    print(f"[{prop}] tier={tier} obligations={n_obl} discharged={n_dis} rt_scenarios={len(rt)} rt_failed={len(rt_fail)} "
+    print(f"[{prop}] tier={tier} obligations={n_obl} discharged={n_dis} skeleton={s_dis}/{s_obl} rt_scenarios={len(rt)} rt_failed={len(rt_fail)} "
           f"canaries={canary_report['refuted']}/{canary_report['run']} level={level} exit={exit_code} "
           f"wall={time.time() - t_start:.1f}s")
     return exit_code
